@@ -263,7 +263,8 @@ fn execute(opts: &Options) -> Result<i32> {
             let file = PathBuf::from(path);
             let file = file.canonicalize().unwrap_or(file);
 
-            let (config, _) = load_config(Some(file.parent().unwrap()), Some(options))?;
+            // (the root directory has no parent: its configuration is searched for in itself)
+            let (config, _) = load_config(Some(file.parent().unwrap_or(&file)), Some(options))?;
             let toml = config.all_options().to_toml()?;
             io::stdout().write_all(toml.as_bytes())?;
 
